@@ -25,7 +25,7 @@ EOF
 )
   wt="/tmp/rg-$id"
   git -C /repo worktree add --detach -q "$wt" HEAD 2>/dev/null || { echo "$id HARNESS (worktree)"; return; }
-  if ! git -C "$wt" apply --whitespace=nowarn "$d/patch.diff" 2>/dev/null; then
+  if ! git -C "$wt" apply --whitespace=nowarn "$d/patch.diff" 2>/dev/null && ! { git -C "$wt" apply --3way --whitespace=nowarn "$d/patch.diff" >/dev/null 2>&1 && [ -z "$(git -C "$wt" diff --name-only --diff-filter=U)" ]; }; then
     echo "$id STALE"
   elif ! (cd "$wt" && go build ./... 2>/dev/null); then
     echo "$id STALE (applies, does not build)"
@@ -44,5 +44,8 @@ EOF
 }
 export -f one; export HERE
 printf '%s\n' "${ids[@]}" | xargs -P "$jobs" -I{} bash -c 'one {}' | tee /tmp/seedregress.$$.txt
-sort /tmp/seedregress.$$.txt > "$HERE/SEEDREGRESS_RESULTS.txt"; rm -f /tmp/seedregress.$$.txt
+# merge with earlier results: a re-run of some ids replaces only their lines
+touch "$HERE/SEEDREGRESS_RESULTS.txt"
+{ cut -d' ' -f1 /tmp/seedregress.$$.txt | grep -v -x -F -f - <(awk '{print $1}' "$HERE/SEEDREGRESS_RESULTS.txt") | while read -r keep; do grep "^$keep " "$HERE/SEEDREGRESS_RESULTS.txt"; done; cat /tmp/seedregress.$$.txt; } | sort -u > /tmp/seedregress.$$.merged
+mv /tmp/seedregress.$$.merged "$HERE/SEEDREGRESS_RESULTS.txt"; rm -f /tmp/seedregress.$$.txt
 echo "--- $(grep -c CAUGHT "$HERE/SEEDREGRESS_RESULTS.txt") caught, $(grep -c MISSED "$HERE/SEEDREGRESS_RESULTS.txt") missed, $(grep -c STALE "$HERE/SEEDREGRESS_RESULTS.txt") stale, $(grep -c HARNESS "$HERE/SEEDREGRESS_RESULTS.txt") harness"
